@@ -138,7 +138,17 @@ pub fn gen_case2(prop: &str, tier: Tier, _seed: u64, idx: u64, r: &mut Rng) -> O
                         aframe: r.bytes_range(0, 12),
                         partial: r.byte(),
                     }),
-                    _ => Case::Free(FreeOp::Values { a: r.byte(), b: r.byte(), c: r.next_u64() as u16, s: crate::gen::hist::titles(r) }),
+                    _ => {
+                        let s = if r.chance(1, 2) {
+                            crate::gen::hist::titles(r)
+                        } else {
+                            // codec-name soup: known names and profile suffixes, separators, and
+                            // multi-byte characters in every position
+                            let toks = ["aac", "AAC", "Aac", "opus", "h264", "H.265", "hevc", "av1", "vp9", "he", "hev2", "lc", "main", "ssr", "ltp", "none", "-", "_", " ", ".", "é", "ß", "ａ", "音", "😀", "\u{0301}", "", "\t"];
+                            (0..r.range(1, 5)).map(|_| *r.pick(&toks)).collect::<String>()
+                        };
+                        Case::Free(FreeOp::Values { a: r.byte(), b: r.byte(), c: r.next_u64() as u16, s })
+                    }
                 }
             }
         },
@@ -305,6 +315,9 @@ pub fn gen_case2(prop: &str, tier: Tier, _seed: u64, idx: u64, r: &mut Rng) -> O
                     // creation time / language through their own setters, now and then after
                     // decoy calls of the same setters
                     h.cfg.path = if r.chance(1, 3) { 12 } else { 4 };
+                } else if r.chance(1, 3) {
+                    // the chainable Metadata setters called title-last
+                    h.cfg.path = 32;
                 }
                 if r.chance(1, 40) {
                     h.cfg.title = Some("t".repeat(100_000));
@@ -361,9 +374,34 @@ pub fn c16_case(r: &mut Rng, idx: u64) -> Case {
     let kf = |r: &mut Rng, c: u8| video_frame(r, c, FrameKind::KeyCfg, 8, false);
     let df = |r: &mut Rng, c: u8| video_frame(r, c, FrameKind::Delta, 6, false);
     let eps = *r.pick(&[-2i64, -1, 0, 1, 2]);
-    let scenario = idx % 14;
+    let scenario = idx % 15;
     let mut ops: Vec<Op> = Vec::new();
     match scenario {
+        14 => {
+            // a recording of several days: both tracks run far beyond 2^32 ticks after the first
+            // frame, audio and video alternating irregularly (every single gap fits 32 bits)
+            cfg.audio = Some(AudioCfg { kind: 7, rate: 48_000, channels: 2 });
+            let mut calls: Vec<(u64, bool)> = Vec::new();
+            for audio in [false, true] {
+                let mut t = if audio { r.below(2) * r.below(90_000) } else { 0 };
+                for _ in 0..r.range(3, 7) {
+                    calls.push((t, audio));
+                    t += *r.pick(&[900_000_000u64, 3_600_000_000, 4_000_000_000, u32::MAX as u64 - 1, 90_000 * 45_000]) - r.below(1000);
+                }
+            }
+            // video wins ties; calls in timestamp order
+            calls.sort_by_key(|&(t, a)| (t, a));
+            let mut first = true;
+            for (t, audio) in calls {
+                if audio {
+                    ops.push(Op::wa(ticks_s(t), opus_packet(r, 8)));
+                } else {
+                    let f = if first { kf(r, cfg.vcodec) } else { df(r, cfg.vcodec) };
+                    ops.push(Op::wv(ticks_s(t), f, first));
+                    first = false;
+                }
+            }
+        }
         0 => {
             // single video gap around 2^32 ticks
             let g = ((1i64 << 32) + eps - 1) as u64;
@@ -559,8 +597,15 @@ fn hexify(r: &mut Rng, data: &[u8]) -> Vec<u8> {
     }
     let mut s = String::new();
     let upper = r.chance(1, 4);
+    let mixed = r.chance(1, 8);
     for (i, b) in data.iter().enumerate() {
-        if upper {
+        if mixed {
+            // digits of one byte in different cases ("aB", "Ff")
+            let hi = format!("{:x}", b >> 4);
+            let lo = format!("{:x}", b & 15);
+            s.push_str(&if r.chance(1, 2) { hi.to_uppercase() } else { hi });
+            s.push_str(&if r.chance(1, 2) { lo.to_uppercase() } else { lo });
+        } else if upper {
             s.push_str(&format!("{:02X}", b));
         } else {
             s.push_str(&format!("{:02x}", b));
@@ -963,6 +1008,9 @@ pub fn eval_case2(prop: &str, case: &Case, obs: &mut Obs) -> Vec<Violation> {
                         add(mon::c14::check_bytes(t, obs), &mut out);
                     }
                     add(mon::c14::check_via_muxer(&all, obs), &mut out);
+                    for _ in 0..4 {
+                        add(mon::c14::check_av_muxer(&mut r, obs), &mut out);
+                    }
                 }
             }
             out
@@ -1028,6 +1076,7 @@ pub fn eval_case2(prop: &str, case: &Case, obs: &mut Obs) -> Vec<Violation> {
             obs.sample(h.brief());
             let mut out = mon::c17::check_sinks_and_moves(h, &format!("{}/tmp", crate::util::target_dir()), obs);
             out.extend(mon::c17::check_paths(h, obs));
+            out.extend(mon::c17::check_frag_builder_paths(h.hash(), obs));
             let d = mon::c17::reference(h).digest();
             *obs.counters.entry("digest_xor".into()).or_insert(0) ^= d;
             out
